@@ -1,9 +1,7 @@
 import CollectionsC.Proofs.ArrayStep
 /-! The per-operation theorems under the conventional names (`K.op_inv`, `K.op_refines`,
 `K.op_nofault`, `K.op_inert`, `K.op_atomic`, `K.op_ledger`), as projections of the `_spec` bundles
-of `Proofs/Array*.lean`.  `hg : a.grow a.capacity ≤ CC_MAX_ELEMENTS` (the growth function's value at
-the current capacity is in the range of the C cast) is needed only by the `_inv` theorems of the
-growing calls. -/
+of `Proofs/Array*.lean`.  No theorem constrains the growth function. -/
 namespace CC.Arr
 open CC
 
@@ -13,10 +11,9 @@ theorem add_refines (a : Arr) (x : Nat) (m : Mem) (h : a.Inv) (hl : 0 < m.live) 
   rcases (add_spec a x m h hl).1 with ⟨ok, habs, _⟩ | ⟨hb, _⟩
   · exact ⟨ok, habs⟩
   · rcases hb.1 with ⟨e, _⟩ | ⟨e, _⟩ <;> rw [e] at hok <;> simp at hok
-theorem add_inv (a : Arr) (x : Nat) (m : Mem) (h : a.Inv) (hl : 0 < m.live)
-    (hg : a.grow a.capacity ≤ Gen.CC_MAX_ELEMENTS) : (a.add x m).2.1.Inv := by
+theorem add_inv (a : Arr) (x : Nat) (m : Mem) (h : a.Inv) (hl : 0 < m.live) : (a.add x m).2.1.Inv := by
   rcases (add_spec a x m h hl).1 with ⟨_, _, g⟩ | ⟨_, hs⟩
-  · exact g.inv h hg
+  · exact g.inv h
   · rw [hs]; exact h
 theorem add_nofault (a : Arr) (x : Nat) (m : Mem) (h : a.Inv) (hl : 0 < m.live) :
     (a.add x m).2.2.fault = m.fault := (add_spec a x m h hl).2.2
@@ -28,7 +25,7 @@ theorem add_inert (a : Arr) (x : Nat) (m : Mem) (h : a.Inv) (hl : 0 < m.live) (h
   · exact absurd ok hne
   · exact hs
 theorem add_atomic (a : Arr) (x : Nat) (m : Mem) (hfull : a.size = a.capacity)
-    (hmax : a.capacity ≠ Gen.CC_MAX_ELEMENTS) (hr : m.alloc.1 = false) :
+    (hmax : ¬ a.AtLimit) (hr : m.alloc.1 = false) :
     (a.add x m).1 = .errAlloc ∧ (a.add x m).2.1 = a ∧ (a.add x m).2.2.live = m.live := by
   have hf : a.capacity ≤ a.size := by omega
   rw [add_full a x m hf, expandCapacity_refused a m hmax hr]
@@ -48,10 +45,9 @@ theorem addAt_refines (a : Arr) (x i : Nat) (m : Mem) (h : a.Inv) (hl : 0 < m.li
       · exact absurd e hnb.2
   · have hi' : ¬ i ≤ a.abs.length := by simp; omega
     simp only [hi', if_false]; rw [heq]; exact ⟨rfl, rfl⟩
-theorem addAt_inv (a : Arr) (x i : Nat) (m : Mem) (h : a.Inv) (hl : 0 < m.live)
-    (hg : a.grow a.capacity ≤ Gen.CC_MAX_ELEMENTS) : (a.addAt x i m).2.1.Inv := by
+theorem addAt_inv (a : Arr) (x i : Nat) (m : Mem) (h : a.Inv) (hl : 0 < m.live) : (a.addAt x i m).2.1.Inv := by
   rcases (addAt_spec a x i m h hl).1 with ⟨_, ⟨_, _, g⟩ | ⟨_, hs⟩⟩ | ⟨_, heq⟩
-  · exact g.inv h hg
+  · exact g.inv h
   · rw [hs]; exact h
   · rw [heq]; exact h
 theorem addAt_nofault (a : Arr) (x i : Nat) (m : Mem) (h : a.Inv) (hl : 0 < m.live) :
